@@ -251,3 +251,158 @@ fn old_stacking(hit_objects: &mut [OsuObject], stack_threshold: f64) {
         }
     }
 }
+
+/// Verification hooks for the stacking passes; only present with `--cfg rosu_pp_verif`.
+///
+/// Add-only: builds [`OsuObject`]s (from a map exactly like [`convert_objects`] does, or from a
+/// synthetic description), records what the passes read of them through the objects' own
+/// accessors, runs the unchanged private `stacking` / `old_stacking` and returns the stack heights.
+#[cfg(rosu_pp_verif)]
+pub mod verif {
+    use rosu_map::{section::hit_objects::CurveBuffers, util::Pos};
+
+    use crate::model::{beatmap::Beatmap, hit_object::Spinner};
+
+    use super::super::object::{
+        NestedSliderObject, NestedSliderObjectKind, OsuObject, OsuObjectKind, OsuSlider,
+    };
+
+    /// What `stacking` / `old_stacking` read of one object (before the pass).
+    #[derive(Clone, Debug, PartialEq)]
+    pub struct StackProbeObject {
+        /// 0: circle, 1: slider, 2: spinner
+        pub kind: u8,
+        pub pos: Pos,
+        pub start_time: f64,
+        /// `OsuObject::end_time()`
+        pub end_time: f64,
+        /// `OsuObject::end_pos()`
+        pub end_pos: Pos,
+        /// `OsuSlider::repeat_count()` (0 for non-sliders)
+        pub repeat_count: usize,
+        /// position of `OsuSlider::tail()`
+        pub tail: Option<Pos>,
+        /// position of the first nested `Repeat`
+        pub first_repeat: Option<Pos>,
+    }
+
+    #[derive(Clone, Debug, PartialEq)]
+    pub struct StackProbe {
+        pub objects: Vec<StackProbeObject>,
+        /// `stack_height` of every object after the pass
+        pub heights: Vec<i32>,
+    }
+
+    /// Synthetic object description for [`stacking_probe_synth`].
+    #[derive(Clone, Debug, PartialEq)]
+    pub enum StackSynthKind {
+        Circle,
+        Spinner { duration: f64 },
+        /// nested objects as (absolute position, 0: repeat / 1: tail / other: tick)
+        Slider { end_time: f64, nested: Vec<(Pos, u8)> },
+    }
+
+    fn snapshot(h: &OsuObject) -> StackProbeObject {
+        let (kind, repeat_count, tail, first_repeat) = match h.kind {
+            OsuObjectKind::Circle => (0, 0, None, None),
+            OsuObjectKind::Slider(ref slider) => (
+                1,
+                slider.repeat_count(),
+                slider.tail().map(|nested| nested.pos),
+                slider
+                    .nested_objects
+                    .iter()
+                    .find(|nested| nested.is_repeat())
+                    .map(|nested| nested.pos),
+            ),
+            OsuObjectKind::Spinner(_) => (2, 0, None, None),
+        };
+
+        StackProbeObject {
+            kind,
+            pos: h.pos,
+            start_time: h.start_time,
+            end_time: h.end_time(),
+            end_pos: h.end_pos(),
+            repeat_count,
+            tail,
+            first_repeat,
+        }
+    }
+
+    fn probe(mut objects: Box<[OsuObject]>, old: bool, stack_threshold: f64) -> StackProbe {
+        let snapshots = objects.iter().map(snapshot).collect();
+
+        if old {
+            super::old_stacking(&mut objects, stack_threshold);
+        } else {
+            super::stacking(&mut objects, stack_threshold);
+        }
+
+        StackProbe {
+            objects: snapshots,
+            heights: objects.iter().map(|h| h.stack_height).collect(),
+        }
+    }
+
+    /// Objects of `map` as `convert_objects` builds them (no reflection), then the chosen pass.
+    pub fn stacking_probe_map(map: &Beatmap, old: bool, stack_threshold: f64) -> StackProbe {
+        let mut curve_bufs = CurveBuffers::default();
+        let mut ticks_buf = Vec::new();
+
+        let mut objects: Box<[_]> = map
+            .hit_objects
+            .iter()
+            .map(|h| OsuObject::new(h, map, &mut curve_bufs, &mut ticks_buf))
+            .collect();
+
+        objects.iter_mut().for_each(OsuObject::finalize_nested);
+
+        probe(objects, old, stack_threshold)
+    }
+
+    /// Synthetic objects (position, start time, kind), then the chosen pass.
+    pub fn stacking_probe_synth(
+        objects: &[(Pos, f64, StackSynthKind)],
+        old: bool,
+        stack_threshold: f64,
+    ) -> StackProbe {
+        let objects: Box<[_]> = objects
+            .iter()
+            .map(|(pos, start_time, kind)| OsuObject {
+                pos: *pos,
+                start_time: *start_time,
+                stack_height: 0,
+                stack_offset: Pos::default(),
+                kind: match kind {
+                    StackSynthKind::Circle => OsuObjectKind::Circle,
+                    StackSynthKind::Spinner { duration } => OsuObjectKind::Spinner(Spinner {
+                        duration: *duration,
+                    }),
+                    StackSynthKind::Slider { end_time, nested } => {
+                        OsuObjectKind::Slider(OsuSlider {
+                            end_time: *end_time,
+                            lazy_end_pos: Pos::default(),
+                            lazy_travel_dist: 0.0,
+                            lazy_travel_time: 0.0,
+                            nested_objects: nested
+                                .iter()
+                                .map(|(pos, k)| NestedSliderObject {
+                                    pos: *pos,
+                                    start_time: *end_time,
+                                    kind: match k {
+                                        0 => NestedSliderObjectKind::Repeat,
+                                        1 => NestedSliderObjectKind::Tail,
+                                        _ => NestedSliderObjectKind::Tick,
+                                    },
+                                })
+                                .collect(),
+                        })
+                    }
+                },
+            })
+            .collect();
+
+        probe(objects, old, stack_threshold)
+    }
+}
